@@ -581,3 +581,100 @@ func fsmStateConfined(c *Ctx, rule string) {
 		c.Fail(rule, "fsm-state", 0, "no access to RaftNode.state found (the applied-state record is gone)")
 	}
 }
+
+// ---- an answer is read to its end ---------------------------------------------------------------------
+//
+// The bytes handed to the JSON decoder of an answer are everything the server sent: the reader given
+// to ReadAll in the client's request function (and in the agents' snapshot-store client) is the
+// response body itself, not a length-limiting wrapper — a truncated answer does not decode, or
+// decodes into something else than was encoded.
+func answersReadInFull(c *Ctx, rule string, subjects []*ssa.Function) {
+	p := c.P
+	n := 0
+	for _, fn := range subjects {
+		for _, call := range p.RegionOf(fn, 2).Calls(func(k *ssa.CallCommon) bool {
+			f := k.StaticCallee()
+			return f != nil && f.Name() == "ReadAll" && f.Pkg != nil && (f.Pkg.Pkg.Path() == "io/ioutil" || f.Pkg.Pkg.Path() == "io")
+		}) {
+			n++
+			arg := p.TermOf(callCommon(call.in).Args[0])
+			limited := arg.Has(func(t *Term) bool {
+				if t.Op == "call" && t.Fn != nil && t.Fn.Pkg != nil && t.Fn.Pkg.Pkg.Path() == "io" && t.Fn.Name() == "LimitReader" {
+					return true
+				}
+				return t.Op == "alloc" && strings.Contains(t.Name, "io.LimitedReader")
+			})
+			body := arg.Has(func(t *Term) bool { return t.Op == "field" && t.Name == "Body" })
+			c.Check(body && !limited, rule, funcName(fn)+":read-all", call.in.Pos(), "the answer's body is read to its end", "the answer is read from "+arg.String()+": not the whole response body (a length limit cuts long answers — a large bulk's snapshots, a long proof — which then fail to decode)")
+		}
+	}
+	if n == 0 {
+		c.Fail(rule, "read-all", 0, "no function of the client reads a response body")
+	}
+}
+
+// ---- the transport's receive buffer is used only during the call that lends it -----------------------------
+//
+// memberlist lends NotifyMsg its receive buffer: "the byte slice may be modified after the call
+// returns". The delegate must decode it before returning: the parameter must not be handed to a
+// goroutine (captured by a closure started with `go`, or passed to a `go` call), stored or sent.
+func borrowedBufferNotRetained(c *Ctx, rule string) {
+	p := c.P
+	fn := p.MustMethod("gossip", "agentDelegate", "NotifyMsg")
+	if len(fn.Params) < 2 {
+		c.Fail(rule, funcName(fn)+":borrowed-buffer", fn.Pos(), "NotifyMsg has no message parameter")
+		return
+	}
+	msg := fn.Params[1]
+	isMsg := func(v ssa.Value) bool {
+		for i := 0; i < 6; i++ {
+			switch x := v.(type) {
+			case *ssa.Slice:
+				v = x.X
+				continue
+			case *ssa.ChangeType:
+				v = x.X
+				continue
+			case *ssa.UnOp:
+				if al, ok := x.X.(*ssa.Alloc); ok {
+					if whole, _ := p.storesTo(al); len(whole) == 1 && whole[0] == ssa.Value(msg) {
+						return true
+					}
+				}
+			case *ssa.Alloc:
+				if whole, _ := p.storesTo(x); len(whole) == 1 && whole[0] == ssa.Value(msg) {
+					return true
+				}
+			}
+			break
+		}
+		return v == ssa.Value(msg)
+	}
+	var why []string
+	eachInstr(fn, func(in ssa.Instruction) {
+		switch x := in.(type) {
+		case *ssa.Go:
+			for _, a := range x.Call.Args {
+				if isMsg(a) {
+					why = append(why, "the buffer is passed to a goroutine at "+p.pos(in.Pos()))
+				}
+			}
+			if mc, ok := x.Call.Value.(*ssa.MakeClosure); ok {
+				for _, b := range mc.Bindings {
+					if isMsg(b) {
+						why = append(why, "the buffer is captured by a goroutine started at "+p.pos(in.Pos()))
+					}
+				}
+			}
+		case *ssa.Store:
+			if _, local := x.Addr.(*ssa.Alloc); !local && isMsg(x.Val) {
+				why = append(why, "the buffer is stored at "+p.pos(in.Pos()))
+			}
+		case *ssa.Send:
+			if isMsg(x.X) {
+				why = append(why, "the buffer is sent on a channel at "+p.pos(in.Pos()))
+			}
+		}
+	})
+	c.Check(len(why) == 0, rule, funcName(fn)+":borrowed-buffer", fn.Pos(), "the receive buffer is decoded before NotifyMsg returns (not handed to a goroutine, stored or sent)", strings.Join(why, "; ")+": memberlist reuses the buffer once NotifyMsg has returned, so what is decoded later is some other message (or garbage)")
+}
